@@ -176,6 +176,8 @@ func (gen *generator) irDICompileUnit(new metadata.SpecializedNode, old *ast.DIC
 	} else if !ok {
 		panic(fmt.Errorf("invalid IR specialized metadata node for AST specialized metadata node; expected *metadata.DICompileUnit, got %T", new))
 	}
+	// LLVM reads an absent splitDebugInlining field as true.
+	md.SplitDebugInlining = true
 	for _, oldField := range old.Fields() {
 		switch oldField := oldField.(type) {
 		case *ast.LanguageField:
@@ -638,6 +640,8 @@ func (gen *generator) irDIGlobalVariable(new metadata.SpecializedNode, old *ast.
 	} else if !ok {
 		panic(fmt.Errorf("invalid IR specialized metadata node for AST specialized metadata node; expected *metadata.DIGlobalVariable, got %T", new))
 	}
+	// LLVM reads an absent isDefinition field as true.
+	md.IsDefinition = true
 	for _, oldField := range old.Fields() {
 		switch oldField := oldField.(type) {
 		case *ast.NameField:
